@@ -100,6 +100,9 @@ def run(ctx):
     ok = any(IM in (t["f"].get("full", "") + ci.local_ty(t["dest"][0])) for t in col)
     ctx.check(ok, "C07-R1", "compile_contents_inner:collects-IndexMap", "the schema object is collected into an IndexMap",
               "compile_contents_inner collects the schema object into %s" % [ci.local_ty(t["dest"][0]) for t in col], site=ci.where())
+    unordered_locals = [d["ty"] for d in ci.locals if any(u in d["ty"] for u in ("BTreeMap", "HashMap<", "BTreeSet", "HashSet<"))]
+    ctx.check(not unordered_locals, "C07-R1", "compile_contents_inner:no-unordered-intermediate", "no hash/tree map on the way from the JSON object to the IndexMap",
+              "compile_contents_inner routes the schema object through %s: key order is lost" % unordered_locals[:1], site=ci.where())
     # the loop over keywords iterates the IndexMap itself
     it = [t for _, t in cm.calls() if t["f"].get("def", "").endswith("IndexMap::<K, V, S>::iter") or "indexmap" in t["f"].get("def", "") and t["f"]["def"].endswith("::iter")]
     ctx.check(bool(it), "C07-R1", "compile_contents_map:iterates-IndexMap", "keywords are processed in the schema's order (IndexMap::iter)",
@@ -129,14 +132,23 @@ def run(ctx):
         ok = ok and F.place_fields(k0[1])[-1:] == [(JS + "ObjectSchema", "properties")] and F.place_fields(r0[1])[-1:] == [(JS + "ObjectSchema", "required")]
     ctx.check(ok, "C07-R1", "gen_json_object:iteration-order", "properties.keys() first, then the remaining required names",
               "gen_json_object no longer iterates properties.keys().chain(required.iter()...): object members are emitted in a different order", site=go.where())
-    osq = go.call_blocks(JC + "::ordered_sequence")
+    of = ctx.body(JC + "::object_fields")
+    sites = go.call_blocks(of.id)
     ok = False
-    for bi in osq:
+    for bi in sites:
         e = go.expr(go.blocks[bi]["term"]["args"][1])
         l = L.root_local(go, e)
         ok = ok or (l is not None and go.local_name(l) == "items")
-    ctx.check(ok, "C07-R1", "gen_json_object:items-to-ordered_sequence", "the collected items are handed to ordered_sequence in collection order",
-              "gen_json_object no longer passes `items` to ordered_sequence", site=go.where())
+    ctx.check(ok, "C07-R1", "gen_json_object:items-to-object_fields", "the collected items are handed on in collection order",
+              "gen_json_object no longer passes `items` to object_fields", site=go.where())
+    osq = of.call_blocks(JC + "::ordered_sequence")
+    ok = False
+    for bi in osq:
+        e = of.expr(of.blocks[bi]["term"]["args"][1])
+        l = L.root_local(of, e)
+        ok = ok or l == 2
+    ctx.check(ok, "C07-R1", "object_fields:items-to-ordered_sequence", "object_fields passes its items unchanged to ordered_sequence",
+              "object_fields no longer passes its items to ordered_sequence", site=of.where())
     # items is only ever pushed to (never sorted / reversed)
     bad = [t["f"]["def"] for _, t in go.calls() if t["f"].get("def", "").rsplit("::", 1)[-1] in ("sort", "sort_by", "sort_by_key", "sort_unstable", "reverse", "swap", "dedup")
            and L.root_local(go, go.expr(t["args"][0])) is not None and go.local_name(L.root_local(go, go.expr(t["args"][0]))) == "items"]
@@ -155,10 +167,11 @@ def run(ctx):
         ok = False
         feats = None
         if llg:
-            node = node_by_id[llg[0]["id"]]
-            for dep in node["deps"]:
-                if pk[dep["pkg"]]["name"] == "serde_json":
-                    feats = node_by_id[dep["pkg"]]["features"]
+            # the library's OWN manifest must ask for the feature (workspace siblings enabling it do not help a
+            # downstream crate that depends on llguidance alone)
+            for dep in llg[0]["dependencies"]:
+                if dep["name"] == "serde_json" and dep.get("kind") in (None, "normal"):
+                    feats = dep.get("features", [])
                     ok = "preserve_order" in feats
         ctx.check(ok, "C07-R1", "serde_json:preserve_order", "serde_json is built with `preserve_order` for llguidance (features: %s)" % (feats,),
                   "the resolved build no longer enables serde_json/preserve_order: serde_json::Map is a BTreeMap and schema key order is lost at parse time",
